@@ -74,6 +74,9 @@ func GenSet(tier string) []GenSpec {
 		fed("explicitrequires"),
 		fed("computedrequires"),
 		probe("customroots"),
+		probe("naming"),
+		probe("noargs"),
+		probeOverlay("customrootsopt", "customroots", map[string]string{"nullable_input_omittable": "true", "return_pointers_in_unmarshalinput": "true", "call_argument_directives_with_null": "true", "omit_slice_element_pointers": "true"}),
 	}
 	if tier == "thorough" {
 		set = append(set,
@@ -85,7 +88,6 @@ func GenSet(tier string) []GenSpec {
 			fed("usefunctionsyntaxforexecutioncontext"),
 			probeOverlay("customrootswl", "customroots", wl),
 			probeOverlay("customrootsfn", "customroots", map[string]string{"use_function_syntax_for_execution_context": "true"}),
-			probeOverlay("customrootsopt", "customroots", map[string]string{"nullable_input_omittable": "true", "return_pointers_in_unmarshalinput": "true", "call_argument_directives_with_null": "true", "omit_slice_element_pointers": "true"}),
 			GenSpec{GenConfig: pipeline.GenConfig{Name: "nullabledirectives", Dir: "codegen/testserver/nullabledirectives", Config: "gqlgen.yml", Stub: "stub.go", Schema: []string{"*.graphql"}},
 				ExecPkg: "codegen/testserver/nullabledirectives/generated"},
 			GenSpec{GenConfig: pipeline.GenConfig{Name: "integration", Dir: "integration/server", Schema: []string{"schema/*.graphql", "schema/*/*.graphql"}},
